@@ -72,7 +72,7 @@ func (s *Scheme) handleSync(msg *IncMessage) {
 	s.lock.RUnlock()
 
 	if !exists {
-		s.Logger.Debugf("Received SYNC message for topic %s from %d but no instance expects it", hex.EncodeToString(msg.Topic)[:8], msg.Source)
+		s.Logger.Debugf("Received SYNC message for topic %s from %d but no instance expects it", logPrefix(msg.Topic), msg.Source)
 		return
 	}
 
@@ -80,20 +80,20 @@ func (s *Scheme) handleSync(msg *IncMessage) {
 }
 
 func (s *Scheme) handleMPC(msg *IncMessage) {
-	s.Logger.Debugf("msg on topic %s from %d", hex.EncodeToString(msg.Topic[:8]), msg.Source)
+	s.Logger.Debugf("msg on topic %s from %d", logPrefix(msg.Topic), msg.Source)
 	s.lock.RLock()
 	handleRBC, rbcExists := s.rbcInProgress[string(msg.Topic)]
 	classifier, classifierExists := s.messageClassifiers[string(msg.Topic)]
 	s.lock.RUnlock()
 
 	if !rbcExists {
-		s.Logger.Warnf("Received MPC message for topic %s but no RBC instance expects it", hex.EncodeToString(msg.Topic)[:8])
+		s.Logger.Warnf("Received MPC message for topic %s but no RBC instance expects it", logPrefix(msg.Topic))
 		s.Logger.Warnf("RBCMessage: %s", base64.StdEncoding.EncodeToString(msg.Data))
 		return
 	}
 
 	if !classifierExists {
-		s.Logger.Warnf("Received MPC message for topic %s but no classifier for it", hex.EncodeToString(msg.Topic)[:8])
+		s.Logger.Warnf("Received MPC message for topic %s but no classifier for it", logPrefix(msg.Topic))
 		return
 	}
 
@@ -132,7 +132,7 @@ func (s *Scheme) handleRBC(msg *IncMessage, rbcEncoding rbcEncoding, classifier 
 	rbcMsg.digest = hash(rawMsgBytes)
 
 	s.Logger.Debugf("Received MPC %smessage from %d on topic %s for round %d",
-		broadcastString, msg.Source, hex.EncodeToString(msg.Topic[:8]), msgRound)
+		broadcastString, msg.Source, logPrefix(msg.Topic), msgRound)
 
 	handleRBC(&rbcMsg, msg.Source)
 }
@@ -141,7 +141,7 @@ func (s *Scheme) handleAck(msg *IncMessage, round uint8, sender uint16, digest [
 	var rbcMsg rbcMsg
 
 	s.Logger.Debugf("Received RBC ack for topic %s with digest %s on round %d about %d from %d",
-		hex.EncodeToString(msg.Topic[:8]), hex.EncodeToString(digest[:8]), round, sender, msg.Source)
+		logPrefix(msg.Topic), logPrefix(digest), round, sender, msg.Source)
 	rbcMsg.digest = digest
 	rbcMsg.sender = sender
 	rbcMsg.round = round
@@ -877,6 +877,15 @@ func (r *threadSafeRBC) Receive(m RBCMessage, from uint16) {
 	r.h(m, from)
 }
 
+// logPrefix returns a short printable prefix of bytes that arrived from the network.
+func logPrefix(b []byte) string {
+	s := hex.EncodeToString(b)
+	if len(s) > 8 {
+		return s[:8]
+	}
+	return s
+}
+
 func hash(in []byte) []byte {
 	h := sha256.New()
 	h.Write(in)
@@ -927,6 +936,10 @@ func (r rbcEncoding) Payload() []byte {
 }
 
 func (r rbcEncoding) Ack() (digest []byte, sender uint16, msgRound uint8, err error) {
+	if len(r) == 0 {
+		return nil, 0, 0, fmt.Errorf("message is empty")
+	}
+
 	// In ack messages, the MSB of the first byte is 0
 	if r[0]>>7 != 0 {
 		return nil, 0, 0, nil
